@@ -12,5 +12,5 @@ for c in vh-core vh-macro; do
   cp /repo/Cargo.lock harness/$c/Cargo.lock
   (cd harness/$c && timeout 3000 cargo build --offline 2>&1 | grep -v "^WARNING conda" | tail -3)
 done
-for p in parts/*/setup.sh; do [ -x "$p" ] && "$p"; done
+parts/setup_parts.sh
 echo "setup done"
